@@ -70,7 +70,7 @@ class PassAnalysis:
         self.item = ('item', self.loop.target.id) if isinstance(self.loop.target, ast.Name) else None
         self.pos_var = self.find_position_var()
         self.mn_classes = mnemonic_classes(facts)
-        self.rows = [self.row(p) for p in self.paths]
+        self.rows = [r for r in (self.row(p) for p in self.paths) if r is not None]
         # classes whose size() is a name-indexed table: one walk per table key (the name decides the size)
         if self.sizes.table_domains:
             keep = []
@@ -89,6 +89,8 @@ class PassAnalysis:
                         f = p.facts.get(self.item)
                         if f and cls in f['isa']:
                             row = self.row(p)
+                            if row is None:
+                                continue
                             row['seed'] = key
                             keep.append(row)
                             self.paths.append(p)
@@ -138,16 +140,24 @@ class PassAnalysis:
         st = path
         # facts implied by a matched compression rule
         crit = criteria_of_path(path)
+        unpinned = False
         if crit is not None:
             key, preds = crit
             names = [f[3][1] for f, _, _ in self.lifted(key, preds)
                      if f[0] == 'cmp' and f[1] == '==' and f[2] == ('NAME',) and f[3][0] == 'const']
+            unpinned = len(names) != 1          # which instruction the matched rule applies to was not read off its predicates
             if len(names) == 1:
                 nm = names[0]
                 st.fact(('attr', self.item, 'name'))['eq'] = C(nm)
                 classes = self.mn_classes.get(nm, set())
                 if len(classes) == 1:
-                    st.fact(self.item)['isa'].add(next(iter(classes)))
+                    cls = next(iter(classes))
+                    f_item = st.fact(self.item)
+                    if any(self.facts.is_subclass(cls, k) for k in f_item['nota']):
+                        # the path assumes the item is not of the class the matched rule's mnemonic has (a fork inside a helper
+                        # that was walked for the construction): it cannot be taken
+                        return None
+                    f_item['isa'].add(cls)
             elif not names:
                 # a rule that admits several mnemonics (`i.name in (..)`): the item is of the class they share, if they share one
                 for f, _, _ in self.lifted(key, preds):
@@ -157,6 +167,7 @@ class PassAnalysis:
                             classes |= self.mn_classes.get(x[3][1], set())
                         if len(classes) == 1:
                             st.fact(self.item)['isa'].add(next(iter(classes)))
+                            unpinned = False
         try:
             consumed = self.sizes.size(self.item, st)
         except AnalysisError as e:
@@ -196,7 +207,7 @@ class PassAnalysis:
             delta = delta + d
             upd.append((u, d))
         return dict(path=path, acc=acc, consumed=consumed, appended=appended, app_values=app_values, advance=advance,
-                    delta=delta, updates=upd, crit=crit, foreign=foreign)
+                    delta=delta, updates=upd, crit=crit, foreign=foreign, unpinned=unpinned)
 
 
 def describe_row(r):
@@ -359,6 +370,11 @@ def check_conservation(report, pa, rule, expect_label_writes):
                 class L:
                     terms = {t: 1 for t, pol, _ in path.conds if isinstance(t, tuple)}
                 hidden = opaque_atoms(pa.facts, L) or [t for t, pol, _ in path.conds if IS_havoc(t)]
+                if not hidden and r.get('unpinned'):
+                    hidden = [('opaque', 'the mnemonic test of rule {!r}'.format(r['crit'][0]))]
+            if not hidden and r['acc'].label_writes:
+                # the path writes into the label table in a way that is not read as a shift (labels[k] -= d in a loop, ...)
+                hidden = [('opaque', 'the write into the label table at line {}'.format(getattr(r['acc'].label_writes[0], 'lineno', '?')))]
             if hidden:
                 # a difference made of terms the size algebra does not see through is no disproof
                 report.undecided('{}: on the path [{}] the bytes an item contributes ({}) and the bytes emitted ({}) are not comparable: {} is not followed'.format(
